@@ -27,7 +27,7 @@
 (* mechanism modules (Caches, FlipRepair, ...).  All oracles are           *)
 (* recomputed from the raw cells and integer coordinates.                  *)
 (***************************************************************************)
-EXTENDS Geometry, Topology, TLC, LocateWalkOps
+EXTENDS Tolerance, Topology, TLC, LocateWalkOps
 
 Range(s) == {s[i] : i \in DOMAIN s}
 
@@ -147,6 +147,13 @@ Level2(S) ==
 \* orientation sign of a stored cell, at the home coordinates
 CellOrient(S, c) == Orient(Pts(Pos(S), c.vs))
 HasPert(S, vs)   == \E i \in DOMAIN vs : vs[i] \in PertSet(S)
+\* the lattice unit of the history is 2^s (s = 0 unless the driver says otherwise).  C01: "judged in exact
+\* arithmetic OUTSIDE the predicates' documented tolerance band": at s /= 0 a determinant that is non-zero on the
+\* lattice may be inside the band (Tolerance.tla) and then decides nothing.
+ScaleOf(S)       == IF "s" \in DOMAIN S THEN S.s ELSE 0
+OrientDecisive(S, ps) == ScaleOf(S) = 0 \/ DecOrient(OrientDet(ps), ScaleOf(S), S.D, ps)
+SphereDecisive(S, ps, q) ==
+  ScaleOf(S) = 0 \/ (DecOrient(OrientDet(ps), ScaleOf(S), S.D, ps) /\ DecSphere(LiftedDet(ps, q), ScaleOf(S), S.D, Append(ps, q)))
 \* vertices whose stored coordinates are NOT within the documented perturbation of a lattice home that the
 \* exact arithmetic here can represent (|m| >= 1e9 units is logged as 0): nothing geometric is decided about them
 UnkSet(S)        == {r.id : r \in {x \in VRecs(S) : x.pert /\ ~x.dok}}
@@ -157,7 +164,8 @@ HasUnk(S, vs)    == \E i \in DOMAIN vs : vs[i] \in UnkSet(S)
 \* containing a perturbed vertex whose home determinant is zero is undecidable
 \* (inside the tolerance band) and is skipped.
 GeometricOrientationOK(S) ==
-  LET dec == {c \in CRecs(S) : ~HasUnk(S, c.vs) /\ ~(HasPert(S, c.vs) /\ CellOrient(S, c) = 0)}
+  LET dec == {c \in CRecs(S) : ~HasUnk(S, c.vs) /\ ~(HasPert(S, c.vs) /\ CellOrient(S, c) = 0)
+                                /\ (CellOrient(S, c) = 0 \/ OrientDecisive(S, Pts(Pos(S), c.vs)))}
   IN  /\ \A c \in dec : CellOrient(S, c) # 0
       /\ \A c, d \in dec : CellOrient(S, c) = CellOrient(S, d)
 
@@ -194,7 +202,10 @@ SetToSeq(T) == IF T = {} THEN <<>>
                     IN  <<x>> \o SetToSeq(T \ {x})
 
 EmbDec(S, T) == ~(\E v \in T : v \in PertSet(S))
-EmbSide(S, f, v) == Side(Pts(Pos(S), SetToSeq(f)), Pos(S)[v])
+\* side of v relative to the facet f; 0 when the determinant is inside the tolerance band at this scale
+EmbSide(S, f, v) ==
+  LET ps == Append(Pts(Pos(S), SetToSeq(f)), Pos(S)[v]) IN
+  IF OrientDecisive(S, ps) THEN Orient(ps) ELSE 0
 
 \* adjacent cells lie strictly on opposite sides of their common facet
 EmbOpposite(S) ==
@@ -206,7 +217,7 @@ EmbOpposite(S) ==
           b == CHOOSE c \in cs : c # a
           sa == EmbSide(S, f, ApexOf(a, f))
           sb == EmbSide(S, f, ApexOf(b, f))
-      IN  UnkIn(S, a \cup b) \/ (sa * sb < 0) \/ (~EmbDec(S, a \cup b) /\ sa * sb = 0)
+      IN  UnkIn(S, a \cup b) \/ (sa * sb < 0) \/ ((~EmbDec(S, a \cup b) \/ ScaleOf(S) # 0) /\ sa * sb = 0)
 
 \* every boundary facet lies on a supporting hyperplane of the whole vertex set
 EmbConvex(S) ==
@@ -242,7 +253,8 @@ Embedded(S) ==
 StrictViolations(S) ==
   LET P == Pos(S) IN
   UNION {{<<c.id, v>> : v \in {w \in (VIds(S) \ CellSet(c)) \ UnkSet(S) :
-                                 InSphere(Pts(P, c.vs), P[w]) > 0}} : c \in {x \in CRecs(S) : ~HasUnk(S, x.vs)}}
+                                 InSphere(Pts(P, c.vs), P[w]) > 0 /\ SphereDecisive(S, Pts(P, c.vs), P[w])}} :
+         c \in {x \in CRecs(S) : ~HasUnk(S, x.vs)}}
 NoStrictlyInside(S) == StrictViolations(S) = {}
 
 \* diagnostics printed next to a failed conjunct (used to recognise known findings)
@@ -296,10 +308,12 @@ ChkNSI(name, S) ==
 \* no D+2 points on a sphere.
 GeneralPosition(S) ==
   LET P == Pos(S) n == S.D + 1 IN
-  /\ \A T \in KSub(VIds(S), n) : Orient(Pts(P, SetToSeq(T))) # 0
+  /\ \A T \in KSub(VIds(S), n) : Orient(Pts(P, SetToSeq(T))) # 0 /\ OrientDecisive(S, Pts(P, SetToSeq(T)))
   /\ \A T \in KSub(VIds(S), n + 1) :
-       LET t == SetToSeq(T) IN
-       LiftedDet([i \in 1..n |-> P[t[i]]], P[t[n + 1]]) # 0
+       LET t == SetToSeq(T)
+           ps == [i \in 1..n |-> P[t[i]]]
+       IN  LiftedDet(ps, P[t[n + 1]]) # 0
+           /\ (ScaleOf(S) = 0 \/ DecSphere(LiftedDet(ps, P[t[n + 1]]), ScaleOf(S), S.D, Append(ps, P[t[n + 1]])))
 
 \* the Delaunay triangulation of the vertex set (unique in general position)
 DelaunayCells(S) ==
@@ -455,7 +469,7 @@ InsertCopy(pre, a, r, post) ==
         /\ Chk("C09.copy of a present vertex not refused as a coordinate duplicate",
                r.kind \in {"Skipped", "Err"} /\ r.err = "DuplicateCoordinates")
         /\ Chk("C03.refused insert leaves state unchanged", Obs(post) = Obs(pre))
-     \/ /\ a.cls = "farcopy" /\ a.of \in VIds(pre)
+     \/ /\ a.cls \in {"farcopy", "farcopy27", "farcopy24"} /\ a.of \in VIds(pre)
         /\ Chk("C09.point outside the tolerance refused as a duplicate", r.err # "DuplicateCoordinates")
         /\ Chk("C03.refused insert leaves state unchanged", r.kind = "Inserted" \/ Obs(post) = Obs(pre))
         /\ StackOrBootstrap(post, post.cfg.g)
